@@ -320,7 +320,7 @@ def check_export(run):
     jpk = common.REPO / "tests" / "data" / "fmt-jpk-fd_spot3-0192.jpk-force"
     h5 = d / "rate.h5"
     n = 3 if run.tier == "quick" else 8
-    feats, users = {}, {}
+    feats, users, kept = {}, {}, []
     for i in range(n):
         src = d / f"curve{i}.jpk-force"
         shutil.copy(jpk, src)
@@ -338,6 +338,7 @@ def check_export(run):
         feats[f"c{i}"] = IndentationRater.compute_features(idnt)
         rio.save_hdf5(h5, idnt, user_rate=rate, user_name="verif",
                       user_comment=f"c{i}")
+        kept.append(idnt)
     rm = rio.RateManager(h5)
     out = d / "ts_out"
     try:
@@ -364,6 +365,34 @@ def check_export(run):
                     "curve's features (3 significant digits) paired with its "
                     "user rating in container order",
                     payload={"kind": "export"},
+                    theorem="C15 (export round trip)")
+    # the container changes while the manager is alive: a stored curve is
+    # rated again; the next export of the SAME manager must hold the ratings
+    # that are in the container now
+    try:
+        users["c1"] = 8 if users["c1"] != 8 else 4
+        rio.save_hdf5(h5, kept[1], user_rate=users["c1"], user_name="verif",
+                      user_comment="c1")
+        out2 = d / "ts_out2"
+        rm.export_training_set(out2)
+        order2 = [r["comment"] for r in rio.RateManager(h5).ratings]
+        X2, y2 = IndentationRater.load_training_set(
+            path=out2, names=names, which_type="all", replace_inf=False,
+            impute_zero_rated_nan=False, remove_nan=False)
+    except BaseException as e:
+        run.failing(SITE_X, "export-after-rerating",
+                    f"export after re-rating raised {type(e).__name__}: {e}",
+                    payload={"kind": "rerun"})
+        return
+    run.case({"export-after-rerating": n, "container_order": order2},
+             kind="export")
+    if X2.shape[0] != len(order2) or list(np.atleast_1d(y2)) != [
+            float(users[c]) for c in order2]:
+        run.failing(SITE_X, "export-after-rerating",
+                    "after a stored curve was rated again, the export of the "
+                    f"same RateManager holds the ratings {list(y2)}, the "
+                    f"container holds {[users[c] for c in order2]}",
+                    payload={"kind": "rerun"},
                     theorem="C15 (export round trip)")
 
 
